@@ -234,45 +234,69 @@ def rule_peak(repo: Repo, rep: Report) -> int:
     return n + 1
 
 
+class ClipScaling(Scaling):
+    """Records clipping events: `r[mask] = v` and `r = torch.where(mask, v, r)` on the signal variable."""
+
+    def __init__(self, *a, **k):
+        super().__init__(*a, **k)
+        self.clips: List[tuple] = []  # (stmt, value SV, mask node, form)
+
+    def store_subscript(self, target, value, env, stmt):
+        super().store_subscript(target, value, env, stmt)
+        key = self.lvalue_key(target.value)
+        if key is not None:
+            self.clips.append((stmt, value, target.slice, key, "masked store"))
+
+    def stmt_Assign(self, st, env):
+        if len(st.targets) == 1 and isinstance(st.targets[0], ast.Name) and isinstance(st.value, ast.Call) and (call_name(st.value) or "").split(".")[-1] == "where" and len(st.value.args) == 3:
+            m, v, old = st.value.args
+            if isinstance(old, ast.Name) and old.id == st.targets[0].id:
+                val = self.eval(v, env)
+                self.eval(m, env)
+                self.clips.append((st, val, m, old.id, "torch.where"))
+                # the variable keeps its abstract identity (a clipped version of the signal)
+                from ..absint import _Flow
+
+                return _Flow(env)
+        return super().stmt_Assign(st, env)
+
+
 def rule_papr(repo: Repo, rep: Report) -> int:
     ci = repo.cls(PW, "PAPRConstraint")
     fi = repo.method(ci, "_apply_constraint_to_single_item")
     set_parents(fi.node)
     n = 0
     MP = Mono.sym("MP")
-    it = Scaling(fi, repo, cls=ci, attr_values={"self.max_papr": SV("det", MP)})
+    it = ClipScaling(fi, repo, cls=ci, attr_values={"self.max_papr": SV("det", MP)})
     it.MAX_ITER = 2
-
     it.run({"x": SV("sig", ONE), "args": NONE_V, "kwargs": NONE_V})
-    stores = [(st, key, idx, val) for (st, key, idx, val) in it.stores if key == "result"]
     seen = set()
-    final_stores = []
-    for st, key, idx, val in stores:
-        if id(st) in seen:
+    final_clips = []
+    for st, val, mask, key, form in it.clips:
+        if key != "result" or id(st) in seen:
             continue
         seen.add(id(st))
         in_loop = any(isinstance(a, (ast.For, ast.While)) for a in ancestors(st))
         if isinstance(val, SV) and val.kind == "dir":
-            rep.ok("PAPR", fi, st, "clipped samples keep their direction v/(|v|+eps): phase / sign preserved", node=st)
+            rep.ok("PAPR", fi, st, f"clipped samples keep their direction v/(|v|+eps): phase / sign preserved ({form})", node=st)
         elif isinstance(val, SV) and val.kind == "unk":
-            rep.undecided("PAPR", fi, st, f"stored value not derived ({val.why})", node=st)
+            rep.undecided("PAPR", fi, st, f"clipped value not derived ({val.why})", node=st)
         else:
-            rep.violation("PAPR", fi, st, f"a clipping store writes {val.show() if isinstance(val, SV) else val}, not direction*bound: sign or phase of clipped samples is not preserved", node=st)
+            rep.violation("PAPR", fi, st, f"a clipping step writes {val.show() if isinstance(val, SV) else val}, not direction*bound: sign or phase of clipped samples is not preserved", node=st)
         n += 1
         if not in_loop:
-            final_stores.append((st, val))
-    rep.floor("PAPR clipping stores", len(seen), 3)
-    # the final clip: outside the loop, bound law
-    if len(final_stores) != 1:
-        rep.violation("PAPR", fi, f"{len(final_stores)} clipping store(s) after the iteration loop", "exactly one final hard clip must follow the iteration loop on every path to the return")
+            final_clips.append((st, val, mask, form))
+    rep.floor("PAPR clipping steps", len(seen), 3)
+    if len(final_clips) != 1:
+        rep.violation("PAPR", fi, f"{len(final_clips)} clipping step(s) after the iteration loop", "exactly one final hard clip must follow the iteration loop on every path to the return")
         return n + 1
-    st, val = final_stores[0]
+    st, val, mask, form = final_clips[0]
     guards = [a for a in ancestors(st) if isinstance(a, ast.If)]
-    okg = len(guards) == 1 and match(guards[0].test, "torch.any(_M)") is not None and guards[0] in fi.body
-    rep.check(okg, "PAPR", fi, f"final clip guarded by: {[unparse(g.test) for g in guards]}", "applied whenever any sample exceeds the bound, on every path (not inside the loop, not skipped by its break)", "the final clip is conditional on something other than `any(excess)` or is nested", node=st)
+    okg = (len(guards) == 1 and match(guards[0].test, "torch.any(_M)") is not None and guards[0] in fi.body) or (len(guards) == 0 and st in fi.body)
+    rep.check(okg, "PAPR", fi, f"final clip guarded by: {[unparse(g.test) for g in guards] or 'nothing'}", "applied whenever any sample exceeds the bound, on every path (not inside the loop, not skipped by its break)", "the final clip is conditional on something other than `any(excess)` or is nested", node=st)
     n += 1
-    # after the final clip the function returns directly
-    idx = fi.body.index(guards[0]) if okg else -1
+    top = guards[0] if guards else st
+    idx = fi.body.index(top) if okg else -1
     tail = fi.body[idx + 1 :] if idx >= 0 else []
     rep.check(len(tail) == 1 and isinstance(tail[0], ast.Return) and unparse(tail[0].value) == "result", "PAPR", fi, "return result directly after the final clip", "nothing modifies the signal after the final clip", "statements between the final clip and the return", node=tail[0] if tail else st)
     n += 1
@@ -287,16 +311,16 @@ def rule_papr(repo: Repo, rep: Report) -> int:
     else:
         rep.undecided("PAPR", fi, "final bound", f"magnitude not derived ({val.show() if isinstance(val, SV) else val})", node=st)
     n += 1
-    # mask of the final clip compares |result| with the same bound
+    # the mask of the final clip compares |result| with the same bound
+    mname = unparse(mask)
     finals = [(c, l, r) for (c, l, r) in it.compares if isinstance(l, SV) and l.kind == "sigabs" and isinstance(r, SV) and r.kind == "det" and not any(isinstance(a, (ast.For, ast.While)) for a in ancestors(c))]
-    okm = any(isinstance(c.ops[0], ast.Gt) and val.m is not None and r.m == val.m for (c, l, r) in finals) if isinstance(val, SV) else False
-    rep.check(okm, "PAPR", fi, f"final mask: {[unparse(c) for (c, l, r) in finals]}", "samples with |v| > bound are exactly the ones clipped to the bound", "the final mask does not compare |v| with the bound it clips to", node=st)
+    okm = any(isinstance(c.ops[0], ast.Gt) and isinstance(val, SV) and val.m is not None and r.m == val.m for (c, l, r) in finals)
+    rep.check(okm, "PAPR", fi, f"final mask `{mname}`: {[unparse(c) for (c, l, r) in finals]}", "samples with |v| > bound are exactly the ones clipped to the bound", "the final mask does not compare |v| with the bound it clips to", node=st)
     n += 1
-    # batch handling: each item processed alone
     fwd = repo.method(ci, "forward")
     calls = [c for c in ast.walk(fwd.node) if isinstance(c, ast.Call) and attr_chain(c.func) == "self._apply_constraint_to_single_item"]
     args0 = sorted({unparse(c.args[0]) for c in calls if c.args})
-    rep.check(args0 == ["single_x", "x", "x[i]"], "PAPR", fwd, f"per-item application on {args0}", "vmap over the batch axis / per-row fallback / single item", "the PAPR constraint is no longer applied to each batch item separately", node=fwd.node)
+    rep.expect(args0 == ["single_x", "x", "x[i]"], "PAPR", fwd, f"per-item application on {args0}", "vmap over the batch axis / per-row fallback / single item", "the PAPR constraint is no longer applied to each batch item separately", node=fwd.node)
     return n + 1
 
 
